@@ -110,8 +110,7 @@ def run(ctx):
                      "DoneNearest holds on the algorithm model (the design-level form of C07-F25 is gone)"
     casef = os.path.join(wdir, "cases.ndjson")
     obsf = os.path.join(wdir, "obs.ndjson")
-    vlib.write_ndjson(casef, cases)
-    vlib.run_harness(vh, ["maven", tablesf, casef, obsf], timeout=3000)
+    vlib.run_harness_split(vh, "maven", tablesf, cases, casef, obsf, nparts=1 if ctx.replay else 6)
     states, gen, rej, lines = vlib.tlc_chunks("MavenTrace", os.path.join(vlib.SPEC, "MavenTrace.cfg"), wdir, obsf, 2000 if ctx.tier == "quick" else 4000,
                                               "MavenTrace", parallel=4, workers=4)
     verdict = vlib.Verdict(pid)
@@ -126,6 +125,9 @@ def run(ctx):
         resolved += 1
         if len(o["graph"]["nodes"]) >= 4:
             nontrivial += 1
+    abandoned = sum(1 for ln in lines if "did not return within" in ln)
+    if abandoned:
+        print("NOTE: %d resolutions did not return within 60 s and were abandoned (a matter for C04, totality; not judged here)" % abandoned)
     model_diff = []
     for idx, x in rej:
         o = json.loads(lines[idx - 1])
@@ -159,7 +161,7 @@ def run(ctx):
            "rule": "every universe of the MavenResolveMC family (TLC-enumerated, with the algorithm model's graph) + seeded Maven universes over the pools of MavenModel.tla (every third one soft-only); "
                    "non-trivial = resolved graph with >= 4 nodes; %d resolutions ended in a resolver error (not judged)" % errs,
            "samples": [{"root": s["root"], "artifacts": len(s["universe"]), "graph": s["graph"]}],
-           "known_findings_hit": {k: v[0] for k, v in verdict.hits.items()}, "exhaustive": False,
+           "resolutions_abandoned_after_60s": abandoned, "known_findings_hit": {k: v[0] for k, v in verdict.hits.items()}, "exhaustive": False,
            "algorithm_model": {"family_universes": nmodel, "states": mr_states, "real_resolver_differs_on": len(model_diff), "nearest_wins_on_the_model": design_cex}}
     vlib.write_evidence(pid, ctx.tier, ctx.seed, "model_checking", cov, time.time() - t0, violations=len(verdict.violations),
                         assumptions=["TLC 1.8.0", "VersionRange semantics and ComparableVersion order from Ranges.tla / Order.tla", "single registry",
